@@ -8,6 +8,7 @@ import (
 	"fmt"
 	"math"
 	"math/big"
+	"runtime/debug"
 	"sort"
 	"strings"
 
@@ -78,7 +79,14 @@ func tokOf(v any) string {
 			a := new(big.Int).Abs(v)
 			low := new(big.Int).And(a, new(big.Int).SetUint64(math.MaxUint64))
 			top := new(big.Int).Rsh(a, uint(a.BitLen()-64))
-			return fmt.Sprintf("B:%d:%d:%s:%s", v.Sign(), a.BitLen(), top.Text(16), low.Text(16))
+			t := fmt.Sprintf("B:%d:%d:%s:%s", v.Sign(), a.BitLen(), top.Text(16), low.Text(16))
+			if a.BitLen() > 1<<24 {
+				// a multi-megabyte integer (and the copies made for its digest): give the memory back
+				// now, so that a series of such results is not mistaken for unbounded allocation
+				a, low, top = nil, nil, nil
+				debug.FreeOSMemory()
+			}
+			return t
 		}
 		return "b:" + v.String()
 	case float64:
